@@ -80,6 +80,8 @@ class Exporter {
         return T.getCanonicalType().getAsString(PP);
     }
     std::string qname(const NamedDecl * D) {
+        if (const auto * S = dyn_cast<ClassTemplateSpecializationDecl>(D))
+            return typeStr(Ctx.getRecordType(S));
         std::string s;
         llvm::raw_string_ostream os(s);
         D->printQualifiedName(os, PP);
